@@ -39,6 +39,8 @@ type c16Actor struct {
 	other    gen.KeyPair
 	symlinks bool
 	bigCR    bool
+	root     *gen.CA // the same CAs in both copies of the actor's data
+	inter    *gen.CA
 }
 
 // buildActorDir creates the actor's data: a tree, a chain, link/layout files.
@@ -85,6 +87,12 @@ func buildActorDir(c *core.Ctx, a *c16Actor, dir string, helper string) error {
 		return err
 	}
 	ch.Layout.Inspect = nil
+	// every actor's layout has its own intermediate CA (so that the library builds a pool from
+	// the layout's and the caller's certificates)
+	if a.root != nil && a.inter != nil {
+		ch.Layout.RootCas = map[string]intoto.Key{a.root.Key.KeyID: a.root.Key}
+		ch.Layout.IntermediateCas = map[string]intoto.Key{a.inter.Key.KeyID: a.inter.Key}
+	}
 	if _, _, err := ch.WriteLayout("plain.layout", a.owner); err != nil {
 		return err
 	}
@@ -110,6 +118,10 @@ func errClassOf(err error) string {
 }
 
 var inFlight, maxInFlight int64
+
+// sharedIntermediates is passed (read-only) by every goroutine as the caller's list of
+// additional intermediate certificates; it has spare capacity on purpose.
+var sharedIntermediates [][]byte
 
 func enter() {
 	n := atomic.AddInt64(&inFlight, 1)
@@ -236,7 +248,7 @@ func runOps(c *core.Ctx, a *c16Actor, dir string, rounds int, census bool) []opR
 			if err != nil {
 				return errClassOf(err)
 			}
-			sum, err := intoto.InTotoVerify(md, gen.KeyMap(a.owner), filepath.Join(chainDir, "links"), "sum", map[string]string{"X": "y"}, nil, false)
+			sum, err := intoto.InTotoVerify(md, gen.KeyMap(a.owner), filepath.Join(chainDir, "links"), "sum", map[string]string{"X": "y"}, sharedIntermediates, false)
 			if err != nil {
 				return errClassOf(err)
 			}
@@ -313,9 +325,17 @@ func runC16(c *core.Ctx) {
 	fast := gen.Fast(Pool(c))
 	base := filepath.Join(c.WorkDir, "data")
 	os.Chdir(c.WorkDir)
+	if ca, err := gen.NewCA(gen.CertSpec{CN: "shared-extra-intermediate"}, nil); err == nil {
+		sharedIntermediates = make([][]byte, 1, 8)
+		sharedIntermediates[0] = []byte(ca.PEM)
+	}
 	actors := make([]*c16Actor, G)
 	for g := 0; g < G; g++ {
 		a := &c16Actor{id: g, key: fast[(g+1)%len(fast)], owner: fast[g%len(fast)], other: fast[(g+2)%len(fast)], symlinks: g%2 == 0, bigCR: g%4 < 2}
+		if root, err := gen.NewCA(gen.CertSpec{CN: fmt.Sprintf("root-g%d", g)}, nil); err == nil {
+			a.root = root
+			a.inter, _ = gen.NewCA(gen.CertSpec{CN: fmt.Sprintf("inter-g%d", g)}, root)
+		}
 		for k := 0; k < 2; k++ {
 			a.dirs[k] = filepath.Join(base, fmt.Sprintf("pass%d", k), fmt.Sprintf("g%d", g))
 			if err := buildActorDir(c, a, a.dirs[k], Helper(c)); err != nil {
@@ -486,7 +506,7 @@ func init() {
 	core.Register(&core.Property{
 		ID:    "C16",
 		Level: "exploration",
-		Rule: "rounds = fresh worker processes (quick 16, thorough 48); round k uses G in {2,4,8,16,32} goroutines and GOMAXPROCS in {2,4,16}; every goroutine owns a generated tree (half with file and directory symlinks, half with 2 MiB CRLF files), keys, a chain directory and metadata files, and runs 1 (quick) / 3 (thorough) times the list LoadMetadata of layout and links (first library operation of the process: cold caches), RecordArtifacts with and without normalisation, Metablock Sign/Dump/Load/Verify, Envelope SetPayload/Sign/Dump/Load/Verify, InTotoRun (vhelper), InTotoRecordStart/Stop, InTotoMatchProducts, InTotoVerify (no inspections), InTotoVerifyWithDirectory (own run dir, globally unique inspection name), SubstituteParameters; then the same lists are executed sequentially on identical copies of the data and compared result by result. Even shards run the -race build with GORACE=halt_on_error=0 log_path=...: report blocks are counted from the log files and attributed by their in_toto frames; the hook handler there only yields. Odd shards run the normal build in census mode: hook events (record_reset / record_symlink) are logged with their owner, the evidence lists the distinct interleavings (windows of 12 events) and the maximum number of calls in flight. " +
+		Rule: "rounds = fresh worker processes (quick 16, thorough 48); round k uses G in {2,4,8,16,32} goroutines and GOMAXPROCS in {2,4,16}; every goroutine owns a generated tree (half with file and directory symlinks, half with 2 MiB CRLF files), keys, a chain directory and metadata files, and runs 1 (quick) / 3 (thorough) times the list LoadMetadata of layout and links (first library operation of the process: cold caches), RecordArtifacts with and without normalisation, Metablock Sign/Dump/Load/Verify, Envelope SetPayload/Sign/Dump/Load/Verify, InTotoRun (vhelper), InTotoRecordStart/Stop, InTotoMatchProducts, InTotoVerify (no inspections; layout with its own intermediate CA; the caller's list of additional intermediates is one read-only slice with spare capacity shared by all goroutines), InTotoVerifyWithDirectory (own run dir, globally unique inspection name), SubstituteParameters; then the same lists are executed sequentially on identical copies of the data and compared result by result. Even shards run the -race build with GORACE=halt_on_error=0 log_path=...: report blocks are counted from the log files and attributed by their in_toto frames; the hook handler there only yields. Odd shards run the normal build in census mode: hook events (record_reset / record_symlink) are logged with their owner, the evidence lists the distinct interleavings (windows of 12 events) and the maximum number of calls in flight. " +
 			"non-trivial = a round with >=2 calls in flight; distinct = (mode, G, GOMAXPROCS, interleaving hash)",
 		Assumptions: []string{"inspections of InTotoVerify without run directory use the process cwd and are excluded from 'independent data'; InTotoVerifyWithDirectory drops <inspection>.link into the shared cwd under globally unique names", "the race detector only sees races on executed paths; its silence is 'no report on these executions'"},
 		Workers: func(t string) int {
